@@ -349,7 +349,9 @@ theorem invA_onReq (c : Cfg) (hc : c.fix13 = true) (s : St) (p : ObjId) (r : Req
     · split
       · exact invA_respond _ _ _ _ (invA_setPrepared _ _ h)
       · exact invA_respond _ _ _ _ h
-    · exact invA_updGhost s p _ h rfl rfl rfl rfl rfl (h.last_le p)
+    · split
+      · exact invA_updGhost s p _ h rfl rfl rfl rfl rfl (h.last_le p)
+      · exact invA_respond _ _ _ _ h
 
 theorem invA_onData (c : Cfg) (hc : c.fix13 = true) (s : St) (p : ObjId) (r : Req) (h : InvA s) :
     InvA (onData c s p r).1 := invA_onReq c hc _ p r (invA_touch s p h)
@@ -626,7 +628,9 @@ theorem rel_onReq (c : Cfg) (s : St) (p : ObjId) (r : Req) : Rel (vtgt s p) s (o
         · rename_i e; exact absurd (by rw [e]) ha
         · exact hp
       · exact Rel.weaken (rel_respond _ _ _ _)
-    · exact Rel.weaken (rel_updObj s p _ rfl rfl (fun h => h) (Or.inl rfl))
+    · split
+      · exact Rel.weaken (rel_updObj s p _ rfl rfl (fun h => h) (Or.inl rfl))
+      · exact Rel.weaken (rel_respond _ _ _ _)
 
 theorem rel_onData (c : Cfg) (s : St) (p : ObjId) (r : Req) : Rel (vtgt s p) s (onData c s p r).1 := by
   simp only [onData]
@@ -981,7 +985,9 @@ theorem writesOnly_onReq (c : Cfg) (s : St) (q : ObjId) (r : Req) : writesOnly q
       · exact hr
     · split <;> exact writesOnly_respond _ _ _ _
     · split <;> exact writesOnly_respond _ _ _ _
-    · exact writesOnly_nil q
+    · split
+      · exact writesOnly_nil q
+      · exact writesOnly_respond _ _ _ _
 
 /-- **no write to a transport after `close()`** (one step) -/
 theorem step_silent (c : Cfg) (s : St) (e : Ev) (p : ObjId) (hA : InvA s) (hcl : (s.obj p).closing = true) :
@@ -1403,7 +1409,9 @@ theorem invQ_onReq (c : Cfg) (s : St) (p : ObjId) (r : Req) (h : InvQ c s) : Inv
     · split
       · exact invQ_respond c { s with prepared := _ } p _ _ h
       · exact invQ_respond c _ p _ _ h
-    · exact invQ_updObj c s p _ h (qok_same c (s.obj p) _ (h p) rfl rfl rfl (Nat.le_refl _))
+    · split
+      · exact invQ_updObj c s p _ h (qok_same c (s.obj p) _ (h p) rfl rfl rfl (Nat.le_refl _))
+      · exact invQ_respond c _ p _ _ h
 
 theorem invQ_step (c : Cfg) (s : St) (e : Ev) (h : InvQ c s) : InvQ c (step c s e).1 := by
   cases e with
@@ -1567,7 +1575,9 @@ theorem noEvent_onReq (c : Cfg) (s : St) (q : ObjId) (r : Req) : noEvent (onReq 
       · exact hr
     · split <;> exact noEvent_respond _ _ _ _
     · split <;> exact noEvent_respond _ _ _ _
-    · exact noEvent_nil
+    · split
+      · exact noEvent_nil
+      · exact noEvent_respond _ _ _ _
 
 theorem sendEvents_event (s : St) (p q : ObjId) (t : Nat) (es : List (Cid × Val))
     (h : Out.event q t es ∈ (sendEvents s p).2) :
